@@ -673,6 +673,15 @@ def name_return(src, f, edits, retname):
     edits.add(toks[end - 1].end, toks[end - 1].end, ")", "R11", "")
 
 
+def spec_requires(spec):
+    """the `requires` clauses of a contract block as one normalised string (entry preconditions: assumed of the callers)"""
+    m = re.search(r"\brequires\b(.*?)(?=\bensures\b|\bdecreases\b|$)", spec, flags=re.S)
+    if not m:
+        return ""
+    t = re.sub(r"//[^\n]*", "", m.group(1))
+    return " ".join(t.split()).rstrip(",")[:600]
+
+
 def gen_fn(repo, d, body, report):
     src = open_src(repo, d["file"])
     scope = None
@@ -864,6 +873,7 @@ def gen_fn(repo, d, body, report):
     report["items"].append(dict(kind="fn", file=d["file"], name=d["name"], impl=d.get("impl"), gen_name=d.get("as", d["name"]),
                                 src_line=src.line_of(lo_off), src_end_line=src.line_of(hi_off), loops=len(loops),
                                 loop_specs=n_loop_specs, rules=stats, props=d.get("props", ""), canary=d.get("canary", "1") != "0",
+                                requires=spec_requires(spec),
                                 edits=[dict(rule=e[3], note=e[4], src_line=src.line_of(e[0]), src=src.text[e[0]:e[1]][:200])
                                        for e in edits.items if e[3] not in ("SPEC", "GHOST", "R11")]))
     return text, segs, src
@@ -1196,6 +1206,7 @@ def gen_fragment(repo, d, body, report):
     stats["R6"] = 1
     report["items"].append(dict(kind="fragment", file=d["file"], name=d["fn"], gen_name=d["name"], src_line=src.line_of(lo_off),
                                 src_end_line=src.line_of(hi_off), rules=stats, props=d.get("props", ""), loops=len(loops),
+                                requires=spec_requires(spec),
                                 edits=[dict(rule=e[3], note=e[4], src_line=src.line_of(e[0]), src=src.text[e[0]:e[1]][:200])
                                        for e in edits.items if e[3] not in ("SPEC", "GHOST")]))
     return head + text + tail, segs, src
